@@ -9,6 +9,18 @@ pub mod props;
 
 use ctx::{Ctx, Tier};
 
+/// Tracking global allocator: records the largest single allocation request since the last reset
+/// (used by C15: "never tries to allocate memory proportional to an unvalidated length field").
+struct TrackingAlloc;
+unsafe impl std::alloc::GlobalAlloc for TrackingAlloc {
+    unsafe fn alloc(&self, l: std::alloc::Layout) -> *mut u8 { ctx::note_alloc(l.size()); unsafe { std::alloc::System.alloc(l) } }
+    unsafe fn dealloc(&self, p: *mut u8, l: std::alloc::Layout) { unsafe { std::alloc::System.dealloc(p, l) } }
+    unsafe fn alloc_zeroed(&self, l: std::alloc::Layout) -> *mut u8 { ctx::note_alloc(l.size()); unsafe { std::alloc::System.alloc_zeroed(l) } }
+    unsafe fn realloc(&self, p: *mut u8, l: std::alloc::Layout, n: usize) -> *mut u8 { ctx::note_alloc(n); unsafe { std::alloc::System.realloc(p, l, n) } }
+}
+#[global_allocator]
+static GLOBAL: TrackingAlloc = TrackingAlloc;
+
 fn arg(args: &[String], name: &str) -> Option<String> { args.iter().position(|a| a == name).and_then(|i| args.get(i + 1).cloned()) }
 fn flag(args: &[String], name: &str) -> bool { args.iter().any(|a| a == name) }
 
@@ -33,6 +45,10 @@ fn main() {
             c.variant = arg(&args, "--variant").unwrap_or_else(|| "fast".into());
             if let Some(b) = arg(&args, "--budget-s").and_then(|s| s.parse::<u64>().ok()) { c.budget = std::time::Duration::from_secs(b); }
             if let Some(s) = arg(&args, "--scale").and_then(|s| s.parse::<f64>().ok()) { c.scale = s; }
+            if let Some(mb) = arg(&args, "--rlimit-as-mb").and_then(|s| s.parse::<u64>().ok()) {
+                let lim = libc::rlimit { rlim_cur: mb << 20, rlim_max: mb << 20 };
+                unsafe { libc::setrlimit(libc::RLIMIT_AS, &lim); }
+            }
             ctx::install_panic_hook();
             ctx::set_verbose_panics(c.verbose);
             if !cfg!(miri) { ctx::start_watchdog(out_path.clone()); }
